@@ -31,10 +31,13 @@ MAY_RAISE = {
     "load": ("YAMLError",),           # ruamel YAML(...).load
     "model_validate": ("ValidationError",),
     "index": ("ValueError",),
+    # JSON serialisers: the YAML loader produces values JSON cannot express (!!binary bytes, dates, a self-containing alias)
+    "model_dump_json": ("PydanticSerializationError",),
+    "json.dumps": ("TypeError", "ValueError"),
 }
 # how external exception classes relate to builtin ones (for handler matching)
 EXT_BASES = {
-    "ValidationError": "ValueError", "JSONDecodeError": "ValueError", "YAMLError": "Exception",
+    "ValidationError": "ValueError", "JSONDecodeError": "ValueError", "YAMLError": "Exception", "PydanticSerializationError": "ValueError",
     "CalledProcessError": "Exception", "HTTPError": "Exception", "NetworkError": "Exception", "Exit": "Exception",
     "BadParameter": "Exception",
 }
@@ -101,7 +104,9 @@ def run(rep: Report, ctx: Any) -> str:
                       "abstract methods overridden by every concrete class; anything else must be caught on every call path")
     rep.rule("R06.2", "calls of the may-raise table on document-derived operands are enclosed by a try catching what they raise; "
                       "code running inside pydantic validation raises only ValueError/AssertionError (no unguarded `in`/subscript on "
-                      "Any); values of untrusted Any sources are not returned as containers without an isinstance check")
+                      "Any); values of untrusted Any sources are not returned as containers without an isinstance check; a document "
+                      "value handed to a container operation (iteration, len, `in`, subscription) has no scalar type (bool / int / "
+                      "float) among its abstract types unless an isinstance test excludes it on every way there")
     rep.rule("R06.3", "every call through a dynamically imported property template is guarded by `{% if alias.macro %}` or every "
                       "template the alias can denote defines the macro")
     rep.rule("R06.4", "every while loop and every recursive cycle of the call graph has one of five ranking arguments, decided on the "
@@ -112,7 +117,10 @@ def run(rep: Report, ctx: Any) -> str:
                       "reset between passes, no iteration both re-queues and sets the indicator; (4) every repetition removes a "
                       "key just tested present from a map nothing adds to; (5) structural recursion - the non-descending call "
                       "edges are acyclic; in iterative form a work queue that every round takes an element off and that receives, "
-                      "unless a bounded event of (1)/(4) was passed, only strict sub-objects of the element just taken off")
+                      "unless a bounded event of (1)/(4) was passed, only strict sub-objects of the element just taken off; every "
+                      "regular expression handed to `re`: each unbounded repetition divides a text in one way only (its body has a "
+                      "fixed length, or begins / ends with a delimiter that occurs nowhere else in it, or is a choice between "
+                      "alternatives with different first characters that each end in one way) - no exponential backtracking")
     rep.rule("R06.5", "handle_errors ends with a non-zero exit status iff an error-level diagnostic exists or fail_on_warning, and "
                       "without one when there are no diagnostics - decided by abstract evaluation of handle_errors and the functions "
                       "it calls under each combination of (no diagnostics | some has level ERROR | none has) x fail_on_warning; a "
@@ -270,6 +278,9 @@ def run(rep: Report, ctx: Any) -> str:
             guarded = any(isinstance(n, ast.Call) and call_name(n) == "isinstance" for n in ast.walk(f.node))
             if guarded and n_src == 0:
                 rep.ok("R06.2", f"{short(f)}::container-check", "isinstance check", "present")
+
+    # (iv) container operations on document values that may be scalars
+    _container_operations(rep, ctx, [f for f in funcs if not f.module.name.startswith(f"{PKG}.schema") or f in validators], validators)
 
     # ------------------------------------------------------------------------------------------------- R06.3
     rep.floor("dispatch_sites", len(ji.dispatches), 40)
@@ -476,6 +487,8 @@ def _termination(rep: Report, ctx: Any, cfgs: dict[str, CFG]) -> None:
         rep.check(pat is not None, "R06.4", key, f"recursive cycle {names} matches no ranking argument ({why})", where="",
                   lhs=names[:6], rhs="structural | fresh element | removal before recursing | growing bounded set | progress rounds",
                   pattern=pat)
+    # the loops the source does not show: backtracking matches of regular expressions
+    _regex_termination(rep, ctx)
 
 
 def _while_pattern(f: FuncInfo, n: ast.While, ix: Any = None) -> tuple[str | None, str]:
@@ -1828,6 +1841,478 @@ def _structural(ix: Any, fs: list[FuncInfo], edges: dict[str, set[str]]) -> tupl
                 return None, ("not structural: the calls " + " -> ".join(x.rsplit(".", 1)[-1] for x in r)
                               + " hand on no strict sub-object of a parameter (or hand the whole parameter on as well)")
     return f"structural (every cycle passes one of {n_desc} calls that descend into a sub-object of a parameter)", ""
+
+
+# ---------------------------------------------------------------------------------------------------------------------------------
+# R06.4, regular expressions.  A backtracking match is a loop the source does not show: when the iterations of an unbounded repetition
+# can divide the same text in more than one way, a text that fails to match further on makes the engine try every division (their
+# number grows exponentially with the length of the text).  The ranking argument for a repetition is that its iterations divide any
+# text in ONE way only; it is decided on the parsed pattern (the standard library's own parser, as in sa/charclass.py), with exact
+# sets of code points for the single-character items.
+
+_RE_FUNCS = {"compile", "match", "fullmatch", "search", "sub", "subn", "split", "findall", "finditer"}
+_MANY = 10  # a repetition allowed this many times or more counts as unbounded
+
+
+class _Rx:
+    def __init__(self, tables: Any, flags: int) -> None:
+        self.t = tables
+        self.fold = bool(flags & 2)  # IGNORECASE: the sets below would have to be closed under case folding -> every set is "anything"
+
+    # -- single-character items ------------------------------------------------------------------------------------------------
+    def charset(self, op: str, av: Any) -> int | None:
+        """the code points a single-character item matches (None: the item is not a single character)"""
+        if op not in ("LITERAL", "NOT_LITERAL", "ANY", "IN"):
+            return None
+        if self.fold:
+            return self.t.ALL
+        if op == "LITERAL":
+            return 1 << av
+        if op == "NOT_LITERAL":
+            return self.t.ALL & ~(1 << av)
+        if op == "ANY":
+            return self.t.ALL
+        out, neg = 0, False
+        for o, a in av:
+            o = str(o)
+            if o == "NEGATE":
+                neg = True
+            elif o == "LITERAL":
+                out |= 1 << a
+            elif o == "RANGE":
+                out |= ((1 << (a[1] + 1)) - 1) & ~((1 << a[0]) - 1)
+            elif o == "CATEGORY":
+                cat = str(a)
+                base = {"WORD": r"\w", "DIGIT": r"\d", "SPACE": r"\s"}.get(cat.replace("CATEGORY_", "").replace("NOT_", ""))
+                if base is None:
+                    return self.t.ALL
+                cls = self.t.regex_class(base)
+                out |= (self.t.ALL & ~cls) if "NOT_" in cat else cls
+            else:
+                return self.t.ALL
+        return (self.t.ALL & ~out) if neg else out
+
+    # -- facts about a sequence of items ---------------------------------------------------------------------------------------
+    def length(self, seq: Any) -> tuple[int, int | None]:
+        """(shortest, longest) text the sequence matches; longest None = unbounded / not known"""
+        lo, hi = 0, 0
+        for op, av in seq:
+            a, b = self.item_length(str(op), av)
+            lo += a
+            hi = None if hi is None or b is None else hi + b
+        return lo, hi
+
+    def item_length(self, op: str, av: Any) -> tuple[int, int | None]:
+        if self.charset(op, av) is not None:
+            return 1, 1
+        if op in ("AT", "ASSERT", "ASSERT_NOT", "FAILURE"):
+            return 0, 0
+        if op == "SUBPATTERN":
+            return self.length(av[3])
+        if op == "ATOMIC_GROUP":
+            return self.length(av)
+        if op == "BRANCH":
+            ls = [self.length(s) for s in av[1]]
+            return min(a for a, _ in ls), (None if any(b is None for _, b in ls) else max(b for _, b in ls))  # type: ignore[type-var]
+        if op in ("MAX_REPEAT", "MIN_REPEAT", "POSSESSIVE_REPEAT"):
+            lo, hi, body = av
+            a, b = self.length(body)
+            return lo * a, (None if b is None or hi >= _MANY and b > 0 else hi * b)
+        if op == "GROUPREF_EXISTS":
+            ls = [self.length(s) for s in (av[1], av[2] or [])]
+            return min(a for a, _ in ls), (None if any(b is None for _, b in ls) else max(b for _, b in ls))  # type: ignore[type-var]
+        return 0, None  # GROUPREF and anything else: not known
+
+    def chars(self, seq: Any) -> int:
+        """every code point a text matched by the sequence can contain"""
+        out = 0
+        for op, av in seq:
+            op = str(op)
+            cs = self.charset(op, av)
+            if cs is not None:
+                out |= cs
+            elif op == "SUBPATTERN":
+                out |= self.chars(av[3])
+            elif op == "ATOMIC_GROUP":
+                out |= self.chars(av)
+            elif op == "BRANCH":
+                for s in av[1]:
+                    out |= self.chars(s)
+            elif op in ("MAX_REPEAT", "MIN_REPEAT", "POSSESSIVE_REPEAT"):
+                out |= self.chars(av[2])
+            elif op == "GROUPREF_EXISTS":
+                out |= self.chars(av[1]) | self.chars(av[2] or [])
+            elif op not in ("AT", "ASSERT", "ASSERT_NOT", "FAILURE"):
+                return self.t.ALL
+        return out
+
+    def first(self, seq: Any) -> int:
+        """code points a non-empty text matched by the sequence can start with"""
+        out = 0
+        for op, av in seq:
+            op = str(op)
+            cs = self.charset(op, av)
+            if cs is not None:
+                return out | cs
+            if op == "SUBPATTERN":
+                out |= self.first(av[3])
+            elif op == "ATOMIC_GROUP":
+                out |= self.first(av)
+            elif op == "BRANCH":
+                for s in av[1]:
+                    out |= self.first(s)
+            elif op in ("MAX_REPEAT", "MIN_REPEAT", "POSSESSIVE_REPEAT"):
+                out |= self.first(av[2])
+            elif op == "GROUPREF_EXISTS":
+                out |= self.first(av[1]) | self.first(av[2] or [])
+            elif op not in ("AT", "ASSERT", "ASSERT_NOT", "FAILURE"):
+                return self.t.ALL
+            if self.item_length(op, av)[0] > 0:
+                return out
+        return out
+
+    @staticmethod
+    def flat(seq: Any) -> list[tuple[str, Any]]:
+        """the items of a sequence with plain groups opened (a group does not change what is matched)"""
+        out: list[tuple[str, Any]] = []
+        for op, av in seq:
+            if str(op) == "SUBPATTERN" and not av[1] and not av[2]:
+                out += _Rx.flat(av[3])
+            else:
+                out.append((str(op), av))
+        return out
+
+    def one_division(self, body: Any) -> bool:
+        """every text has at most one division into consecutive matches of `body`:
+        - all matches have the same (non-zero) length, or
+        - the body begins or ends with a mandatory item of fixed length whose code points occur nowhere else in it (a delimiter:
+          the iterations begin / end exactly where it occurs), or
+        - it is a choice between alternatives that begin with different code points and each of which ends in one way only"""
+        items = [it for it in self.flat(body) if self.item_length(*it) != (0, 0)]
+        lo, hi = self.length(items)
+        if hi is not None and lo == hi:
+            return True  # (zero length: nothing is consumed, the engine stops repeating)
+        if lo == 0:
+            return False
+        if self.end_determined(items):
+            return True
+        if len(items) > 1:
+            d, rest = items[0], items[1:]
+            a, b = self.item_length(*d)
+            if a == b and a > 0 and not (self.chars([d]) & self.chars(rest)):
+                return True
+        return False
+
+    def end_determined(self, items: list[tuple[str, Any]]) -> bool:
+        """reading from a given start, a match of the sequence can end in one place only"""
+        lo, hi = self.length(items)
+        if hi is not None and lo == hi:
+            return True
+        if all(it[0] in ("ATOMIC_GROUP", "POSSESSIVE_REPEAT") or (lambda ab: ab[0] == ab[1])(self.item_length(*it)) for it in items):
+            return True  # nothing in it is ever given back
+        if len(items) > 1:
+            d, rest = items[-1], items[:-1]
+            a, b = self.item_length(*d)
+            if a == b and a > 0 and not (self.chars([d]) & self.chars(rest)):
+                return True
+        if len(items) == 1 and items[0][0] == "BRANCH":
+            alts = [[it for it in self.flat(s) if self.item_length(*it) != (0, 0)] for s in items[0][1][1]]
+            firsts = [self.first(s) for s in alts]
+            if all(self.length(s)[0] > 0 for s in alts) and all(not (firsts[i] & firsts[j]) for i in range(len(alts)) for j in range(i)) \
+                    and all(self.end_determined(s) for s in alts):
+                return True
+        return False
+
+    # -- the check -------------------------------------------------------------------------------------------------------------
+    def ambiguous_repeats(self, seq: Any, out: list[str] | None = None) -> list[str]:
+        """the unbounded repetitions (as text of their parsed form) whose iterations can divide a text in more than one way"""
+        out = [] if out is None else out
+        for op, av in seq:
+            op = str(op)
+            if op in ("MAX_REPEAT", "MIN_REPEAT"):
+                lo, hi, body = av
+                if hi >= _MANY and not self.one_division(body):
+                    txt = _rx_text(body)
+                    out.append((txt if len(list(body)) == 1 and str(list(body)[0][0]) != "BRANCH" else f"(?:{txt})") + ("*" if lo == 0 else "+" if lo == 1 else f"{{{lo},}}"))
+                self.ambiguous_repeats(body, out)
+            elif op == "POSSESSIVE_REPEAT":
+                self.ambiguous_repeats(av[2], out)  # never re-divided itself; what it contains still is, within one iteration
+            elif op == "SUBPATTERN":
+                self.ambiguous_repeats(av[3], out)
+            elif op in ("ASSERT", "ASSERT_NOT"):
+                self.ambiguous_repeats(av[1], out)
+            elif op == "ATOMIC_GROUP":
+                self.ambiguous_repeats(av, out)
+            elif op == "BRANCH":
+                for s in av[1]:
+                    self.ambiguous_repeats(s, out)
+            elif op == "GROUPREF_EXISTS":
+                self.ambiguous_repeats(av[1], out)
+                self.ambiguous_repeats(av[2] or [], out)
+        return out
+
+
+def _rx_text(seq: Any) -> str:
+    """a readable rendering of parsed items"""
+    def cs(av: Any) -> str:
+        out = ""
+        for o, a in av:
+            o = str(o)
+            out += "^" if o == "NEGATE" else re_escape(chr(a)) if o == "LITERAL" else f"{chr(a[0])}-{chr(a[1])}" if o == "RANGE" \
+                else {"CATEGORY_WORD": "\\w", "CATEGORY_DIGIT": "\\d", "CATEGORY_SPACE": "\\s", "CATEGORY_NOT_WORD": "\\W",
+                      "CATEGORY_NOT_DIGIT": "\\D", "CATEGORY_NOT_SPACE": "\\S"}.get(str(a), "?")
+        return out
+
+    def re_escape(c: str) -> str:
+        return "\\" + c if c in ".^$*+?{}[]\\|()" else c
+
+    out = ""
+    for op, av in seq:
+        op = str(op)
+        if op == "LITERAL":
+            out += re_escape(chr(av))
+        elif op == "NOT_LITERAL":
+            out += f"[^{re_escape(chr(av))}]"
+        elif op == "ANY":
+            out += "."
+        elif op == "IN":
+            out += f"[{cs(av)}]"
+        elif op == "SUBPATTERN":
+            out += f"({_rx_text(av[3])})"
+        elif op == "BRANCH":
+            out += "(?:" + "|".join(_rx_text(s) for s in av[1]) + ")"
+        elif op in ("MAX_REPEAT", "MIN_REPEAT", "POSSESSIVE_REPEAT"):
+            lo, hi, body = av
+            inner = _rx_text(body)
+            inner = inner if len(list(body)) == 1 and str(list(body)[0][0]) in ("LITERAL", "IN", "ANY", "NOT_LITERAL", "SUBPATTERN") else f"(?:{inner})"
+            out += inner + ("?" if (lo, hi) == (0, 1) else "*" if lo == 0 and hi >= 1 << 16 else "+" if lo == 1 and hi >= 1 << 16 else f"{{{lo},{hi if hi < 1 << 16 else ''}}}")
+        else:
+            out += f"<{op.lower()}>"
+    return out
+
+
+def _const_text(ix: Any, mod: Any, e: ast.AST | None, local: Any = None, depth: int = 0) -> str | None:
+    """the string an expression always evaluates to: literals, f-strings and concatenations of them, module-level constants and locals
+    bound once to such a string (None: not known)"""
+    if e is None or depth > 4:
+        return None
+    if isinstance(e, ast.Constant):
+        return e.value if isinstance(e.value, str) else None
+    if isinstance(e, ast.JoinedStr):
+        parts = []
+        for v in e.values:
+            if isinstance(v, ast.FormattedValue):
+                if v.conversion != -1 or v.format_spec is not None:
+                    return None
+                parts.append(_const_text(ix, mod, v.value, local, depth + 1))
+            else:
+                parts.append(_const_text(ix, mod, v, local, depth + 1))
+        return None if any(p is None for p in parts) else "".join(parts)  # type: ignore[arg-type]
+    if isinstance(e, ast.BinOp) and isinstance(e.op, ast.Add):
+        a, b = _const_text(ix, mod, e.left, local, depth + 1), _const_text(ix, mod, e.right, local, depth + 1)
+        return None if a is None or b is None else a + b
+    d = dotted(e)
+    if d is None:
+        return None
+    if local is not None and isinstance(e, ast.Name) and e.id in local.defs:
+        vals = local.defs[e.id]
+        return _const_text(ix, mod, vals[0][2], local, depth + 1) if len(vals) == 1 and vals[0][0] == "assign" else None
+    r = ix.resolve(mod, d)
+    if r and r[0] == "var":
+        m, name = r[1]
+        return _const_text(ix, m, m.variables.get(name), None, depth + 1)
+    return None
+
+
+def _regex_termination(rep: Report, ctx: Any) -> None:
+    """Instances: every pattern the package hands to the `re` module.  Oracle: every unbounded repetition of the pattern divides any
+    text in one way only (`_Rx.one_division`)."""
+    from ..astutil import Locals
+
+    try:
+        import re._parser as sp  # type: ignore[import-not-found]
+    except ImportError:  # pragma: no cover
+        import sre_parse as sp  # type: ignore[no-redef]
+    ix = ctx.py
+    n_rx = 0
+    for m in ix.modules.values():
+        owners = [(f.node, f) for f in ix.all_functions if f.module is m]
+        for c in ast.walk(m.tree):
+            if not isinstance(c, ast.Call):
+                continue
+            d = dotted(c.func)
+            r = ix.resolve(m, d) if d else None
+            if not (r and r[0] == "ext" and r[1].startswith("re.") and r[1][3:] in _RE_FUNCS):
+                continue
+            pat_e = c.args[0] if c.args else next((k.value for k in c.keywords if k.arg == "pattern"), None)
+            inner = [f for node, f in owners if any(x is c for x in ast.walk(node))]
+            f = inner[-1] if inner else None
+            at = f"{m.rel}:{c.lineno}"
+            text = _const_text(ix, m, pat_e, Locals(f.node) if f is not None else None)
+            if text is None:
+                # a pattern compiled elsewhere is judged where it is compiled
+                pd = dotted(pat_e) if pat_e is not None else None
+                rr = ix.resolve(m, pd) if pd else None
+                compiled = rr and rr[0] == "var" and isinstance(rr[1][0].variables.get(rr[1][1]), ast.Call)
+                if not compiled:
+                    rep.not_decided.append(f"R06.4: the pattern `{norm(pat_e)[:60]}` at {at} is not a constant of the source: its repetitions are not decided")
+                continue
+            n_rx += 1
+            flags = 0
+            for fe in [*c.args[1:], *[k.value for k in c.keywords if k.arg == "flags"]]:
+                if any(isinstance(x, ast.Attribute) and x.attr in ("I", "IGNORECASE") for x in ast.walk(fe)):
+                    flags |= 2
+            key = f"{short(f) if f is not None else m.name.replace(PKG + '.', '') or PKG}::regex {text[:60]}"
+            try:
+                parsed = sp.parse(text)
+            except Exception as ex:  # noqa: BLE001  (a pattern the library rejects fails at import / first use: reported as it is)
+                rep.fail("R06.4", key, f"the pattern does not parse: {ex}", where=at)
+                continue
+            bad = _Rx(ctx.tables, flags | parsed.state.flags).ambiguous_repeats(parsed)
+            rep.check(not bad, "R06.4", key, f"the iterations of {', '.join('`' + b + '`' for b in bad[:3])} can divide the same text in more "
+                      "than one way (what one iteration matches has no fixed length and no delimiter of its own): on a text that fails to "
+                      "match further on the engine tries every division - exponential backtracking, the match does not come to an end",
+                      where=at, lhs=bad[:3], rhs="every unbounded repetition divides a text in one way only", pattern=text[:120])
+    rep.floor("regular_expressions", n_rx, 2)
+
+
+# ---------------------------------------------------------------------------------------------------------------------------------
+# R06.2 (iv): container operations on values that may be scalars
+
+_SCALARS = {"bool", "int", "float"}
+_ITERATING = {"set", "list", "tuple", "sorted", "frozenset", "enumerate", "sum", "any", "all", "min", "max", "dict", "iter", "reversed", "len"}
+_ITERATING_ALL_ARGS = {"zip", "chain"}
+_ITERATING_METHODS = {"update", "extend", "union", "intersection", "difference", "symmetric_difference", "issubset", "issuperset",
+                      "isdisjoint", "join"}
+
+
+def _alternatives(e: ast.expr) -> list[ast.expr]:
+    """the expressions whose value `e` can hand on: the operands of `a or b` / `a and b`, the arms of a conditional expression"""
+    if isinstance(e, ast.BoolOp):
+        return [x for v in e.values for x in _alternatives(v)]
+    if isinstance(e, ast.IfExp):
+        return _alternatives(e.body) + _alternatives(e.orelse)
+    if isinstance(e, ast.NamedExpr):
+        return _alternatives(e.value)
+    return [e]
+
+
+def _container_uses(fn: ast.AST) -> list[tuple[str, ast.AST, ast.expr]]:
+    """(operation, node, operand) for every operation of the function that needs its operand to be a container / iterable: iteration
+    (for, comprehensions, unpacking, the iterating builtins and collection methods), len(), membership test, subscription"""
+    out: list[tuple[str, ast.AST, ast.expr]] = []
+    for n in _own_nodes(fn):
+        if isinstance(n, (ast.For, ast.AsyncFor, ast.comprehension)):
+            out.append(("iteration", n, n.iter))
+        elif isinstance(n, ast.Call):
+            cn = call_name(n)
+            last = cn.rsplit(".", 1)[-1]
+            if cn in _ITERATING and n.args:
+                out.append((f"{cn}()", n, n.args[0]))
+            elif last in _ITERATING_ALL_ARGS and cn in (last, f"itertools.{last}"):
+                out += [(f"{last}()", n, a) for a in n.args if not isinstance(a, ast.Starred)]
+            elif cn in ("map", "filter") and len(n.args) >= 2:
+                out += [(f"{cn}()", n, a) for a in n.args[1:]]
+            elif isinstance(n.func, ast.Attribute) and n.func.attr in _ITERATING_METHODS:
+                out += [(f".{n.func.attr}()", n, a) for a in n.args if not isinstance(a, ast.Starred)]
+        elif isinstance(n, ast.Compare) and len(n.ops) == 1 and isinstance(n.ops[0], (ast.In, ast.NotIn)):
+            out.append(("`in`", n, n.comparators[0]))
+        elif isinstance(n, ast.Starred) and isinstance(n.ctx, ast.Load):
+            out.append(("unpacking", n, n.value))
+        elif isinstance(n, ast.Subscript) and isinstance(n.ctx, ast.Load):
+            out.append(("subscription", n, n.value))
+    return out
+
+
+def _isinstance_of(test: ast.AST, text: str) -> list[str] | None:
+    """the class names of `isinstance(<text>, ...)`, None when the expression is no such test"""
+    if isinstance(test, ast.Call) and call_name(test) == "isinstance" and len(test.args) == 2 and norm(test.args[0]) == text:
+        return [(dotted(x) or norm(x)).rsplit(".", 1)[-1] for x in (test.args[1].elts if isinstance(test.args[1], ast.Tuple) else [test.args[1]])]
+    return None
+
+
+def _excludes(classes: list[str], outcome: bool, scalars: set[str]) -> bool:
+    """the outcome of isinstance(x, classes) rules out that x is one of the scalar types"""
+    numeric = {"bool": {"bool", "int"}, "int": {"int"}, "float": {"float"}}  # isinstance(True, int)
+    wide = {"object", "Any", "Number", "Real", "Rational", "Integral", "Complex", "complex", "Hashable"}
+    if outcome:
+        return not any(c in wide or c in _SCALARS for c in classes)
+    return all(any(c in numeric[s] or c in wide for c in classes) for s in scalars)
+
+
+def _scalar_excluded(f: FuncInfo, ix: Any, node: ast.AST, text: str, scalars: set[str]) -> bool:
+    """on every way to the operation an isinstance test on the operand (same text) has ruled the scalar types out - inside the
+    expression (arms of a conditional expression, later operands of and / or) or on every path of the statement CFG"""
+    from ..astutil import stmt_of
+    from ..cfg import own_exprs
+
+    found = False
+
+    def rec(cur: ast.AST, guarded: bool) -> None:
+        nonlocal found
+        if cur is node:
+            found = found or guarded
+            return
+        if isinstance(cur, ast.IfExp):
+            facts = _implied(cur.test, True), _implied(cur.test, False)
+            g = [guarded or any((cl := _isinstance_of(a, text)) is not None and _excludes(cl, v, scalars) for a, v in fs) for fs in facts]
+            rec(cur.test, guarded)
+            rec(cur.body, g[0])
+            rec(cur.orelse, g[1])
+            return
+        if isinstance(cur, ast.BoolOp):
+            g = guarded
+            for v in cur.values:
+                rec(v, g)
+                want = isinstance(cur.op, ast.And)  # the next operand is evaluated only if this one was true (and) / false (or)
+                g = g or any((cl := _isinstance_of(a, text)) is not None and _excludes(cl, val, scalars) for a, val in _implied(v, want))
+            return
+        for k in ast.iter_child_nodes(cur):
+            if not isinstance(k, (ast.stmt, ast.ExceptHandler)):
+                rec(k, guarded)
+
+    st = stmt_of(f.node, node)
+    if st is None:
+        return False
+    for e in own_exprs(st):
+        rec(e, False)
+    if found:
+        return True
+    fl = _Flow(f, ix)
+
+    def passes_guard(a: object, lab: bool | None) -> bool:
+        if lab is None or not isinstance(a, (ast.If, ast.While)):
+            return False
+        return any((cl := _isinstance_of(atom, text)) is not None and _excludes(cl, v, scalars) for atom, v in _implied(a.test, lab))
+
+    entry = [(_ENTRY, None, b) for b, _ in fl.out(_ENTRY)]
+    return not fl.reach(entry, [st], stop_edge=passes_guard)
+
+
+def _container_operations(rep: Report, ctx: Any, funcs: list[FuncInfo], validators: list[FuncInfo]) -> None:
+    """Instances: every container operation whose operand is document-derived (abstract interpreter).  Obligation: the operand's
+    abstract type - what the pydantic field it comes from admits, what the code assigned - contains no scalar type (bool, int,
+    float), or an isinstance test has excluded it on every way there.  `x or []` only replaces None / False / 0, not True or 5."""
+    from ..astutil import role_anon
+
+    ix = ctx.py
+    it, _ = ctx.flow
+    n_ops = 0
+    for f in funcs:
+        for what, node, operand in _container_uses(f.node):
+            for alt in _alternatives(operand):
+                av = it.node_av.get(id(alt))
+                if av is None or not (av.labels & {RAW, RAW_NONSTR, UNKNOWN}):
+                    continue
+                n_ops += 1
+                scalars = set(av.types & _SCALARS)
+                ok = not scalars or _scalar_excluded(f, ix, alt, norm(alt), scalars)
+                exc = "TypeError" if f not in validators else "TypeError (not wrapped into ValidationError)"
+                rep.check(ok, "R06.2", f"{short(f)}::{what} on {role_anon(alt, f.node)[:50]}",
+                          f"{what} is applied to `{norm(alt)[:60]}`, a value taken from the document that may be a {' / '.join(sorted(scalars))} "
+                          f"(abstract type {sorted(av.types)[:6]}) and that no isinstance test has narrowed: {exc} instead of a diagnostic",
+                          where(f, node), lhs=sorted(av.types)[:8], rhs="a container type, or an isinstance test on every way to the operation")
+    rep.floor("container_operations_on_document_values", n_ops, 12)
 
 
 # ---------------------------------------------------------------------------------------------------------------------------------
